@@ -520,6 +520,12 @@ class Executor:
     def ite(self, c, a, b):
         if a is b:
             return a
+        if not isinstance(c, bool):
+            cs = z3.simplify(c)
+            if z3.is_true(cs):
+                return a
+            if z3.is_false(cs):
+                return b
         if isinstance(a, Sym) and isinstance(b, Sym):
             if a.t.eq(b.t):
                 return a
@@ -645,8 +651,38 @@ class Executor:
                 t = "?"
         return t
 
+    def eval_promoted(self, st, frame, text):
+        m = re.search(r"::promoted\[(\d+)\]$", text)
+        table = getattr(self, "named_consts", None)
+        if not m or not table:
+            return None
+        ent = table.get("%s::promoted[%s]" % (frame.body.name, m.group(1)))
+        if ent is None:
+            return None
+        if ent[0] == "lit":
+            try:
+                return self.const(ent[2], st)
+            except Unsupported:
+                return None
+        body = ent[1]
+        saved, saved_status = st.frames, st.status
+        st.frames = []
+        try:
+            self.push_frame(st, body, [], None, None)
+            outs = self.run(st)
+        finally:
+            st.frames = saved
+        if len(outs) != 1 or outs[0] is not st or st.status != "returned":
+            raise Unsupported("promoted constant did not evaluate on a single path")
+        st.status = saved_status
+        return st.result
+
     def operand(self, st, frame, op):
         if op.kind == "const":
+            if op.const.endswith("]") and "::promoted[" in op.const:
+                v = self.eval_promoted(st, frame, op.const)
+                if v is not None:
+                    return v
             return self.const(op.const, st)
         v = self.read_place(st, frame, op.place)
         if op.kind == "copy" and isinstance(v, (Obj, VecV)):
@@ -1109,20 +1145,20 @@ class Executor:
         dest_ty = self.place_ty(frame, t.dest) if t.dest is not None else "()"
         ret_bb = t.targets.get("return")
         nf = norm_callee(func) if not re.match(r"^(move|copy) ", func) else func
-        # 1. summaries
-        for rx, handler in self.summaries:
-            if rx.search(nf):
-                self.stats["calls_summarised"][nf] = self.stats["calls_summarised"].get(nf, 0) + 1
-                res = handler(self, st, frame, t, nf, args, dest_ty)
-                return self.finish_call(st, frame, t, res, ret_bb)
-        # 2. inline pearl bodies
+        # 1. functions of this crate on the obligation's inline list (and constructor shims) are executed
         body = self.find_body(func)
-        if body is not None and self.inline(body):
+        if body is not None and (self.inline(body) or ("<impl at" not in body.name and re.search(r"::[A-Z]\w*$", body.name))):
             self.stats["calls_inlined"][body.name] = self.stats["calls_inlined"].get(body.name, 0) + 1
             if ret_bb is None:
                 raise Unsupported("inlining diverging call " + func[:60])
             self.push_frame(st, body, args, t.dest, ret_bb)
             return None
+        # 2. summaries (std and modelled callees)
+        for rx, handler in self.summaries:
+            if rx.search(nf):
+                self.stats["calls_summarised"][nf] = self.stats["calls_summarised"].get(nf, 0) + 1
+                res = handler(self, st, frame, t, nf, args, dest_ty)
+                return self.finish_call(st, frame, t, res, ret_bb)
         # 3. any other function of this crate: opaque. Futures become FutureV (decided at poll), plain calls return an
         #    arbitrary value of their type; both are logged as events.
         if body is not None:
